@@ -36,19 +36,33 @@ get_cell_size() runs exactly before / at the acquire / at the release of
 enable_/disable_win_size_swap(), or the toggling thread runs while the getter is inside
 its lock region; judged against Caches.wstep under the same schedule and, on observations
 alone: a get_cell_size() made after both threads finished equals the twin's fresh value
-for the final setting (CachesTie.scheck)."""
+for the final setting (CachesTie.scheck).
+
+A MEMOISED CALL AGAINST A CONCURRENT INVALIDATION: 2-3 real threads run programs of calls /
+_invalidate_cache() / enable_queries() / disable_queries() on get_terminal_name_version,
+get_fg_bg_colors, get_cell_size or a probe under the real utils.cached, under a cooperative
+scheduler with parking points at the memo's lock (acquire / acquired / release), at the start
+of the memoised body, inside the body after `_queries_enabled` was read, and at the table's
+setdefault; a schedule is a list of picks; ALL interleavings of the picks of [first call ||
+enable_queries()] and [first call || _invalidate_cache()] are enumerated, the rest sampled.
+Judged against model/CachesInval.v under the same schedule and, on observations alone
+(CachesInvalTie.icheck): with queries enabled at the end a call made afterwards returns the
+fresh value with queries enabled; no call returns a value whose body started before the
+begin of an invalidation that had returned when the call began."""
 from __future__ import annotations
 
 import copy
+import time
 from concurrent.futures import ThreadPoolExecutor
 
 import core
 
 LEVEL = "proof"
-EXTRA_TARGETS = ["model/CachesTie.vo"]
+EXTRA_TARGETS = ["model/CachesTie.vo", "model/CachesInvalTie.vo"]
 
 HEADER = ("From Coq Require Import List ZArith Bool.\nImport ListNotations.\n"
-          "From TI Require Import lib.Sched model.Caches model.CachesTie.\nOpen Scope Z_scope.\n")
+          "From TI Require Import lib.Sched model.Caches model.CachesTie model.CachesInval model.CachesInvalTie.\n"
+          "Open Scope Z_scope.\n")
 
 CELLS = [(8, 16), (10, 20), (9, 18), (7, 15), (1, 1), (12, 24), (10, 20), (16, 32)]
 COLS = [1, 2, 3, 80, 80, 100, 120, 132, 200]
@@ -615,9 +629,255 @@ def describe_swap(c):
         ", ".join("enable_win_size_swap()" if x else "disable_win_size_swap()" for x in sw["prog"]), where)
 
 
+# ------------------------------------- a memoised call against a concurrent invalidation
+
+IV_ENVS = {
+    "nv": [dict(E0), dict(E0, pres=9, envname=[0, 0]), dict(E0, xtname=[3, 4], envname=[7, 3], pres=19)],
+    "co": [dict(E0), dict(E0, fg=0x123456, bg=-1, pres=3)],
+    "cs": [dict(E0, io=0, xc=1), dict(E1), dict(E0, io=0, xc=0, xa=1, pres=8)],
+    "probe": [dict(E0)],
+}
+IV_KEYS = {"nv": [0], "co": [0, 1, 2], "cs": [0], "probe": [0, 1, 2, 3]}
+IV_PICKS = {"C": 7, "E": 5, "I": 4, "D": 1}   # picks a command takes at most (first call; effective enable)
+IV_NAMES = {"nv": "get_terminal_name_version()", "co": "get_fg_bg_colors[%d]", "cs": "get_cell_size()", "probe": "probe(%d)"}
+
+
+def iv_counts(progs):
+    return [sum(IV_PICKS[c[0]] for c in p) for p in progs]
+
+
+def iv_tail(progs):
+    """picks that finish every thread whatever was wasted on blocked picks before: two rounds of [each thread in
+    turn, as many picks as its program can take] (the thread inside the lock region, if any, finishes in round
+    one, the threads that were blocked on it in round two)"""
+    return [t for t, n in enumerate(iv_counts(progs)) for _ in range(n)] * 2
+
+
+def unit_perms(units):
+    """all interleavings of the threads' pick sequences; units[t] = the lengths of the blocks of consecutive picks of
+    thread t that are kept together (all 1: every interleaving of the single picks)"""
+    out, cur, pos = [], [], [0] * len(units)
+
+    def rec():
+        if all(pos[t] == len(units[t]) for t in range(len(units))):
+            out.append(list(cur))
+            return
+        for t in range(len(units)):
+            if pos[t] < len(units[t]):
+                n = units[t][pos[t]]
+                pos[t] += 1
+                cur.extend([t] * n)
+                rec()
+                del cur[len(cur) - n:]
+                pos[t] -= 1
+
+    rec()
+    return out
+
+
+def iv_units(progs, glue):
+    """glue: the caller's last two picks (release; return to its caller) stay together"""
+    out = []
+    for p in progs:
+        u = []
+        for c in p:
+            u += [1, 1, 1, 1, 1, 2] if glue and c[0] == "C" else [1] * IV_PICKS[c[0]]
+        out.append(u)
+    return out
+
+
+def iv_case(fn, env, f0, warm, progs, head):
+    return {"inval": {"fn": fn, "env": env, "t0": [80, 24, 800, 480], "f0": f0, "warm": warm, "progs": progs,
+                      "sched": list(head) + iv_tail(progs), "head": len(head)}}
+
+
+def iv_random(rng, fn):
+    keys = IV_KEYS[fn]
+    k = rng.choice(keys)
+    k2 = k if rng.random() < 0.7 else rng.choice(keys)
+    call, call2 = ["C", k], ["C", k2]
+    clear = [["E"]] if fn == "cs" or rng.random() < 0.6 else [["I"]]
+    shapes = [
+        [[call], clear[:]],
+        [[call], [["D"]] + clear],
+        [[call, call2], clear[:]],
+        [[call], clear + [call2]],
+        [[call], clear[:], [call2]],
+        [[call], [["E"], ["D"]], [call2]],
+        [[call, ["D"]], [["E"]], [call2]],
+        [[["D"], call], [["E"], call2]],
+        [[call], [["E"]], [["E"], call2]],
+        [[call], [["D"], ["E"]], [["D"]]],
+    ]
+    progs = rng.choice(shapes)
+    f0 = int(rng.random() < 0.35)
+    warm = []
+    if rng.random() < 0.3:
+        warm = [[rng.choice([k, k2]), int(rng.random() < 0.5)]]
+    head = [t for t, n in enumerate(iv_counts(progs)) for _ in range(n)]
+    rng.shuffle(head)
+    return iv_case(fn, rng.choice(IV_ENVS[fn]), f0, warm, progs, head)
+
+
+def iv_corpus():
+    """boundary schedules, run first"""
+    ce, ci = [[["C", 0]], [["E"]]], [[["C", 0]], [["I"]]]
+    nc, ne, ni = IV_PICKS["C"], IV_PICKS["E"], IV_PICKS["I"]
+    out = []
+    for fn in ("nv", "co", "cs", "probe"):
+        env = IV_ENVS[fn][0]
+        # queries disabled; enable_queries() runs while the first call is: about to look up / about to read the flag /
+        # waiting for the reply / about to store / about to release / about to return
+        for n in (1, 2, 3, 4, 5, 6):
+            out.append(iv_case(fn, env, 0, [], ce, [0] * n + [1] * ne + [0] * (nc - n)))
+        # ... the caller runs when enable_queries() has written the flag and is about to take the lock / to clear /
+        # to release / has released
+        for n in (1, 2, 3, 4):
+            out.append(iv_case(fn, env, 0, [], ce, [1] * n + [0] * nc + [1] * (ne - n)))
+        # ... with an entry made while queries were disabled already there
+        out.append(iv_case(fn, env, 0, [[0, 0]], ce, [0, 1, 0, 1, 0, 1, 1, 0, 1]))
+        out.append(iv_case(fn, env, 0, [[0, 0]], [[["C", 0]], [["E"], ["C", 0]]], [1, 0, 0, 1, 1, 0, 1, 0, 1, 1, 1, 1, 1]))
+        # ... disable / enable round trips around a call in flight
+        out.append(iv_case(fn, env, 1, [], [[["C", 0]], [["D"], ["E"]]], [1, 0, 0, 0, 1, 1, 0, 0, 0, 0, 1, 1, 1, 1]))
+        out.append(iv_case(fn, env, 1, [[0, 1]], [[["D"], ["C", 0]], [["E"], ["C", 0]]], [0, 1, 0, 0, 1, 0, 1, 0, 1, 1]))
+    for fn in ("nv", "co", "probe"):   # the bare _invalidate_cache()
+        for n in (2, 3, 4, 5, 6):
+            out.append(iv_case(fn, IV_ENVS[fn][0], 1, [], ci, [0] * n + [1] * ni + [0] * (nc - n)))
+        out.append(iv_case(fn, IV_ENVS[fn][0], 0, [], [[["C", 0]], [["I"]], [["C", 0]]],
+                           [0, 0, 0, 1, 2, 1, 2, 0, 0, 0, 0, 1, 1, 1, 2]))
+    return out
+
+
+def all_invals(rng, quick):
+    cases = iv_corpus()
+    n_corpus = len(cases)
+    # EVERY interleaving of a first call (queries disabled, cold) with enable_queries() / _invalidate_cache()
+    full = [("nv", [[["C", 0]], [["E"]]], 0), ("probe", [[["C", 1]], [["I"]]], 1)]
+    if not quick:
+        full += [("co", [[["C", 2]], [["E"]]], 0), ("cs", [[["C", 0]], [["E"]]], 0), ("probe", [[["C", 0]], [["E"]]], 0),
+                 ("nv", [[["C", 0]], [["I"]]], 0), ("co", [[["C", 1]], [["I"]]], 1),
+                 ("nv", [[["C", 0]], [["D"], ["E"]]], 1)]
+    for fn, progs, f0 in full:
+        for head in unit_perms(iv_units(progs, quick)):
+            cases.append(iv_case(fn, IV_ENVS[fn][0], f0, [], progs, head))
+    n_full = len(cases) - n_corpus
+    # the same two scenarios on the other functions, sampled; then random programs / flags / warm entries
+    fns = ["nv", "co", "cs", "probe"]
+    for i in range(120 if quick else 4000):
+        cases.append(iv_random(rng, fns[i % 4]))
+    return cases, n_full
+
+
+def qcmd_term(c):
+    return {"C": "QCall %d%%nat" % (c[1] if len(c) > 1 else 0), "I": "QInval", "E": "QEnable", "D": "QDisable"}[c[0]]
+
+
+def zpair(p):
+    return "(%s, %s)" % (core.z(p[0]), core.z(p[1]))
+
+
+def iev_term(e):
+    if e[0] == "B":
+        return "IBody %d%%nat" % e[1]
+    if e[0] == "XB":
+        return "IInvalBegin %d%%nat" % e[1]
+    if e[0] == "XE":
+        return "IInvalEnd %d%%nat" % e[1]
+    if e[0] == "S":
+        return "ICallStart %d%%nat" % e[1]
+    return "ICallRet %d%%nat %s" % (e[1], core.z(e[2]))
+
+
+def inval_term(c, r):
+    iv = c["inval"]
+    nat = lambda x: "%d%%nat" % x  # noqa: E731
+    return ("{| i_f0 := %s; i_warm := %s; i_progs := %s; i_sched := %s; i_flag := %s; i_rets := %s; i_nbody := %d%%nat; "
+            "i_keys := %s; i_cache := %s; i_after := %s; i_fdis := %s; i_fen := %s; i_log := %s |}" % (
+                b(iv["f0"]), core.coq_list(iv["warm"], lambda w: "(%d%%nat, %s)" % (w[0], b(w[1]))),
+                core.coq_list(iv["progs"], lambda p: core.coq_list(p, qcmd_term)), core.coq_list(iv["sched"], nat),
+                b(r["flag"]), core.coq_list(r["rets"], lambda l: core.coq_list(l, zpair)), r["nbody"],
+                core.coq_list(r["keys"], nat), core.coq_list(r["cache"], zpair), core.coq_list(r["after"], zl),
+                core.coq_list(r["fdis"], zl), core.coq_list(r["fen"], zl), core.coq_list(r["log"], iev_term)))
+
+
+def eval_invals(cases, tag="c15i"):
+    # (few processes: a schedule is a chain of thread hand-overs, which a loaded machine serves best in few processes)
+    impl = core.run_impl_parallel("impl_c15.py", cases, chunk=max(110, (len(cases) + 7) // 8))
+    rep, errors = core.coq_shards(tag, HEADER, [inval_term(c, r) for c, r in zip(cases, impl)], "icase",
+                                  "ireport cases", shard=120)
+    codes = [0] * len(cases)
+    if len(rep) != len(cases) and not errors:
+        errors.append(f"Coq reported {len(rep)} results for {len(cases)} invalidation schedules")
+    for idx, v in rep:
+        codes[idx] = v
+    for i, (c, r) in enumerate(zip(cases, impl)):
+        if r["errors"] or r["stuck"]:
+            errors.append("invalidation schedule %s: %s stuck=%d" % (describe_inval(c), r["errors"], r["stuck"]))
+        if not r["distinct"]:
+            errors.append("invalidation schedule on a terminal whose enabled / disabled values coincide: %r" % c["inval"]["env"])
+        if r["drained"] and not codes[i]:
+            codes[i] = 1       # the real threads had parking points left where the model had finished
+    return codes, errors, impl
+
+
+def shrink_inval(case):
+    """drop whole commands (their picks stay, as no-ops), pre-existing entries, then single picks of the interleaved
+    part — latest first — while the observations still contradict the specification"""
+    cur = case
+    for _ in range(60):
+        iv = cur["inval"]
+        cands = []
+        for t in range(len(iv["progs"])):
+            for j in range(len(iv["progs"][t])):
+                if sum(len(p) for p in iv["progs"]) > 1:
+                    c = copy.deepcopy(cur)
+                    del c["inval"]["progs"][t][j]
+                    cands.append(c)
+        if iv["warm"]:
+            c = copy.deepcopy(cur)
+            c["inval"]["warm"] = []
+            cands.append(c)
+        for k in reversed(range(iv["head"])):       # (the tail stays: the replay finishes every thread on correct code)
+            c = copy.deepcopy(cur)
+            del c["inval"]["sched"][k]
+            c["inval"]["head"] = iv["head"] - 1
+            cands.append(c)
+        if not cands:
+            break
+        codes, errors, impl = eval_invals(cands, tag="c15is")
+        # (at most ONE thread may be left to the free run after the picks: the replay stays deterministic)
+        nxt = next((c for c, code, r in zip(cands, codes, impl) if code >= 2 and r["drained"] <= 1), None)
+        if nxt is None or errors:
+            break
+        cur = nxt
+    while cur["inval"]["progs"] and not cur["inval"]["progs"][-1]:   # threads left without commands, at the end
+        cur["inval"]["progs"].pop()
+    return cur
+
+
+def describe_inval(c, trace=None):
+    iv = c["inval"]
+
+    def cmd(x):
+        if x[0] == "C":
+            n = IV_NAMES[iv["fn"]]
+            return n % x[1] if "%" in n else n
+        return {"I": "_invalidate_cache()", "E": "enable_queries()", "D": "disable_queries()"}[x[0]]
+    txt = "queries %s, %s: %s; picks %s (| the finishing tail); then a call from the main thread" % (
+        "enabled" if iv["f0"] else "disabled",
+        "entries present " + repr(iv["warm"]) if iv["warm"] else "memo cold",
+        "; ".join("thread %d: %s" % (t, ", ".join(map(cmd, p))) for t, p in enumerate(iv["progs"])),
+        "".join(map(str, iv["sched"][:iv["head"]])) + "|" + "".join(map(str, iv["sched"][iv["head"]:])))
+    if trace:
+        txt += " [" + " ".join("%d:%s>%s" % tuple(x) for x in trace if x[1] != "done") + "]"
+    return txt
+
+
 def run_probes_and_swaps(ctx, rng, only=None):
     """-> (mismatches, failures, errors, extra)"""
     mismatches, failures, errors, extra = [], [], [], {}
+    secs = extra.setdefault("seconds", {})
+    t0 = time.time()
     if only is None or "probe" in only:
         pcases = [only] if only else copy.deepcopy(PROBE_CORPUS) + [gen_probe(rng) for _ in range(150 if ctx.quick else 3000)]
         codes, perr, impl = eval_probes(pcases)
@@ -649,6 +909,8 @@ def run_probes_and_swaps(ctx, rng, only=None):
                     "replay": {"probe": small["probe"], "observed": impl2[0], "code": codes2[0]}})
             elif code:
                 mismatches.append({"probe": c["probe"], "code": code, "observed": r})
+    secs["probe_histories"] = round(time.time() - t0, 1)
+    t0 = time.time()
     if only is None or "swap" in only:
         scases = [only] if only else all_swaps(rng, ctx.quick)
         codes, serr, impl = eval_swaps(scases)
@@ -674,17 +936,64 @@ def run_probes_and_swaps(ctx, rng, only=None):
                     "replay": {"swap": sw, "observed": r, "code": code}})
             elif code:
                 mismatches.append({"swap": c["swap"], "code": code, "observed": r})
+    secs["swap_schedules"] = round(time.time() - t0, 1)
+    t0 = time.time()
+    if only is None or "inval" in only:
+        if only:
+            icases, n_full = [only], 0
+        else:
+            icases, n_full = all_invals(rng, ctx.quick)
+        codes, ierr, impl = eval_invals(icases)
+        errors += ierr
+        extra["inval_schedules"] = len(icases)
+        extra["inval_schedules_fully_enumerated"] = n_full
+        by_fn, overlap, noop = {}, 0, 0
+        for c, r in zip(icases, impl):
+            by_fn[c["inval"]["fn"]] = by_fn.get(c["inval"]["fn"], 0) + 1
+            inside, hit = set(), False
+            for t, was, now in r["trace"]:
+                # a thread picked while ANOTHER thread is inside the lock region of a call / in its body
+                if any(u != t for u in inside) and was in ("idle", "acq"):
+                    hit = True
+                    noop += now == "acq" and was == "acq"
+                (inside.add if now in ("held", "body", "reply", "store", "rel") else inside.discard)(t)
+            overlap += hit
+        extra["inval_schedules_by_function"] = by_fn
+        extra["inval_schedules_with_a_pick_while_another_thread_is_inside_the_lock_region"] = overlap
+        extra["inval_blocked_picks"] = noop
+        done, fns_seen = 0, set()
+        for c, code, r in sorted(zip(icases, codes, impl), key=lambda x: (len(x[0]["inval"]["progs"]), x[0]["inval"]["head"],
+                                                                          x[0]["inval"]["sched"])):
+            if code >= 2:
+                if c["inval"]["fn"] in fns_seen:     # one failing schedule per function under test
+                    continue
+                fns_seen.add(c["inval"]["fn"])
+                done += 1
+                small = shrink_inval(c) if done <= 2 and not only else c
+                codes2, _, impl2 = eval_invals([small], tag="c15is")
+                iv = small["inval"]
+                failures.append({
+                    "signature": core.sig({k: iv[k] for k in ("fn", "f0", "warm", "progs", "sched")}),
+                    "what": "a memoised value outlived an invalidation that overlapped its computation (a call made after "
+                            "enable_queries() / _invalidate_cache() had returned got a value whose body started before): "
+                            + iv["fn"] + ": " + describe_inval(small, impl2[0]["trace"]),
+                    "replay": {"inval": iv, "observed": impl2[0], "code": codes2[0]}})
+            elif code:
+                mismatches.append({"inval": c["inval"], "code": code, "observed": r})
+    secs["inval_schedules"] = round(time.time() - t0, 1)
     return mismatches, failures, errors, extra
 
 
 def run(ctx):
     rng = ctx.rng
-    if ctx.replay and ("probe" in ctx.replay["replay"] or "swap" in ctx.replay["replay"]):
+    if ctx.replay and any(k in ctx.replay["replay"] for k in ("probe", "swap", "inval")):
         rc = ctx.replay["replay"]
-        only = {"probe": rc["probe"]} if "probe" in rc else {"swap": rc["swap"]}
+        only = {"probe": rc["probe"]} if "probe" in rc else {"swap": rc["swap"]} if "swap" in rc else {"inval": rc["inval"]}
         mismatches, failures, errors, extra = run_probes_and_swaps(ctx, rng, only)
-        return {"corr_name": "replay of a probe history / swap schedule", "evaluations": 1, "distinct_nontrivial": 1,
-                "rule": "replay", "samples": [describe_probe(only) if "probe" in only else describe_swap(only)],
+        return {"corr_name": "replay of a probe history / swap schedule / invalidation schedule", "evaluations": 1,
+                "distinct_nontrivial": 1, "rule": "replay",
+                "samples": [describe_probe(only) if "probe" in only else describe_swap(only) if "swap" in only
+                            else describe_inval(only)],
                 "histogram": {}, "mismatches": mismatches, "failures": failures, "errors": errors,
                 "assumptions": [], "trusted": [], "extra": extra}
     if ctx.replay:
@@ -693,7 +1002,9 @@ def run(ctx):
         n = 420 if ctx.quick else 6000
         cases = copy.deepcopy(CORPUS) + [gen_abort_case(rng) if i % 4 == 1 else gen_tsr_case(rng) if i % 8 == 3
                                          else gen_case(rng, 20 if i % 4 else 8) for i in range(n)]
+    t_start = time.time()
     codes, side, errors, impl = evaluate(cases)
+    t_hist = time.time() - t_start
     mismatches, failures = [], []
     hist = {"ops_len": {}, "op_kinds": {}, "caps": {}, "side_condition_holds": sum(side),
             "side_condition_broken_on_purpose": len(cases) - sum(side), "none_cell_size_answers": 0,
@@ -758,8 +1069,11 @@ def run(ctx):
     extra = {}
     if not ctx.replay:
         # fresh computations in new interpreters
+        t1 = time.time()
         fcs = fresh_cases(cases, impl, 24 if ctx.quick else 400)
         fbad, ferr, fres = run_fresh(fcs)
+        t_fresh = time.time() - t1
+        t1 = time.time()
         errors += ferr
         for idx, _ in fbad:
             mismatches.append({"new_interpreter_fresh": fcs[idx], "observed": fres[idx]})
@@ -777,12 +1091,15 @@ def run(ctx):
             else:
                 mismatches.append(item)
         extra["thread_races"] = len(races)
+        t_races = time.time() - t1
         # sequential histories of a probe under the real utils.cached; swap toggles scheduled against get_cell_size
         m2, f2, e2, x2 = run_probes_and_swaps(ctx, rng)
         mismatches += m2
         failures += f2
         errors += e2
         extra.update(x2)
+        extra["seconds"].update({"histories": round(t_hist, 1), "fresh_in_new_interpreters": round(t_fresh, 1),
+                                 "thread_races": round(t_races, 1)})
     return {
         "corr_name": "Caches.trace (model) == real term_image getters/toggles over a scripted terminal; "
                      "Caches.spec_trace (fresh computations under provenance) == observed",
@@ -805,7 +1122,16 @@ def run(ctx):
                 "(extra.swap_schedules) deterministic two-thread schedules: programs of 1-3 enable_/disable_win_size_swap calls "
                 "x initial flag x warm/cold cache x the point at which the other thread's get_cell_size() runs (before, after, "
                 "at the acquire / the release of the j-th effective toggle, or the toggler running while the getter is inside "
-                "its ioctl), on terminals whose swapped and unswapped cell sizes differ.",
+                "its ioctl), on terminals whose swapped and unswapped cell sizes differ; PLUS (extra.inval_schedules) schedules of 2-3 real "
+                "threads under a cooperative scheduler running programs of memoised calls / _invalidate_cache() / enable_queries() / "
+                "disable_queries() on get_terminal_name_version, get_fg_bg_colors (3 argument tuples), get_cell_size and a probe under "
+                "the real utils.cached, with parking points at the memo's lock (about to acquire / acquired / about to release), at the "
+                "start of the memoised body, inside the body after _queries_enabled was read (the terminal's reply pending) and at the "
+                "table's setdefault: a corpus, EVERY interleaving of the picks of [first call || enable_queries()] (queries disabled, "
+                "memo cold; quick: the caller's release and return kept together: 462) and of [first call || _invalidate_cache()] (210) "
+                "(thorough: at the grain of single picks, for every function, plus [call || disable;enable]), and random programs (two callers, enable/disable round trips, two "
+                "enablers, entries already present, initial flag) under random interleavings; picks of a thread that finds the lock "
+                "taken are part of the schedules (no-ops on the unchanged code).",
         "samples": [describe(c) for c in cases[:2] + cases[14:15] + cases[len(CORPUS) - 4:len(CORPUS) - 3] + cases[len(CORPUS):len(CORPUS) + 3]],
         "histogram": hist,
         "mismatches": mismatches,
@@ -824,6 +1150,11 @@ def run(ctx):
             "get_cell_size's double acquisition of _cell_size_lock (the lock-swap protocol, C14) is modelled as one "
             "acquisition; the statement read and the flag write of a toggle, and the flag read and the cache write of "
             "get_cell_size, are separate micro-steps",
+            "a call against a concurrent invalidation: one memo at a time (enable_queries invalidates its memos in turn, each as "
+            "modelled); the body reads _queries_enabled once, at its start (query_terminal's entry; the second read in the getters, "
+            "which only decides whether the rest of the DA1 reply is drained, does not influence the value); the statement is about "
+            "states in which no enable_queries() is between its flag write and its clear (a second enable_queries() that finds the "
+            "flag already written returns while the first one still has its clear ahead)",
             "aborted computations: the exception is raised inside query_terminal (request write, tcsetattr, or the wait "
             "for the reply); an abort at other points (inside the ioctl, between Python statements by an asynchronous "
             "signal) is not modelled",
@@ -841,6 +1172,13 @@ def run(ctx):
             "completion at the chosen lock event of the toggling thread (or starts the toggling thread from inside the "
             "getter's ioctl and waits until it reaches the lock); the schedule given to the model is computed from the "
             "unchanged code's step counts",
+            "invalidation schedules: the lock and the table of utils.cached are reached through the closure cells shared by the "
+            "wrapper and its _invalidate_cache and replaced by a reporting re-entrant lock (try-acquire only: a pick of a blocked "
+            "thread is a no-op) and a reporting dict (for get_cell_size: utils._cell_size_lock / _cell_size_cache are replaced "
+            "likewise); body parking points sit in a pass-through wrapper of utils.query_terminal (before the real function reads "
+            "_queries_enabled, and after it returned); the cooperative scheduler lets exactly one controlled thread run at a time; "
+            "what is left unfinished after the picks runs freely; the log of body starts / begins and returns of invalidations / call starts "
+            "and returns is appended by the threads themselves while they hold the turn",
             "probe histories: the probe's body counts its runs and returns scripted objects; returned objects are "
             "identified by identity",
             "thread races use real threads (outcome is schedule-independent on correct code); CPython's RLock is trusted",
